@@ -67,8 +67,8 @@ Fixpoint sort_sexp (t : ty) : sexp :=
   | TBool => Atom "Bool" | TInt => Atom "Int" | TReal => Atom "Real" | TStr => Atom "String"
   | TBV w => SList [Atom "_"; Atom "BitVec"; Atom (py_int_str w)]
   | TArr i e => SList [Atom "Array"; sort_sexp i; sort_sexp e]
-  | TUser n [] => Atom n                                  (* self.name, NOT quoted *)
-  | TUser n args => SList (Atom n :: map sort_sexp args)
+  | TUser n [] => Atom (quote n)                          (* custom sorts: quote(basename) *)
+  | TUser n args => SList (Atom (quote n) :: map sort_sexp args)
   | TFun ps r => SList (map sort_sexp ps ++ [Atom "->"; sort_sexp r])   (* " -> ".join: never a term sort *)
   end.
 
@@ -109,11 +109,12 @@ Definition strop_name (k : strop) : string :=
   match k with
   | SLength => "str.len" | SConcat => "str.++" | SContains => "str.contains" | SIndexOf => "str.indexof"
   | SReplace => "str.replace" | SSubstr => "str.substr" | SPrefixOf => "str.prefixof"
-  | SSuffixOf => "str.suffixof" | SToInt => "str.to.int" | SFromInt => "int.to.str" | SCharAt => "str.at"
+  | SSuffixOf => "str.suffixof" | SToInt => "str.to_int" | SFromInt => "str.from_int" | SCharAt => "str.at"
   end.
 
 (* head of the application written for operator o (walk_nary's `operator`, or the indexed
-   identifier); None for leaves, quantifiers and array values *)
+   identifier); None for leaves, quantifiers and array values.  ODiv: see [term_sexp] - the head
+   is "div" when the node has type Int *)
 Definition op_head (o : op) : option sexp :=
   match o with
   | OAnd => Some (Atom "and") | OOr => Some (Atom "or") | ONot => Some (Atom "not")
@@ -149,6 +150,16 @@ Definition node_sexp (o : op) (args : list sexp) : sexp :=
   match op_head o with
   | Some h => SList (h :: args)
   | None => leaf_sexp o
+  end.
+
+(* walk_div: "div" when the Div node has type Int (formula.get_type()), "/" otherwise *)
+Definition div_name (t : term) : string :=
+  match tc t with Some TInt => "div" | _ => "/" end.
+(* text of a non-quantifier, non-array-value node t from the texts of its arguments *)
+Definition term_sexp (t : term) (args : list sexp) : sexp :=
+  match t with
+  | T ODiv _ => SList (Atom (div_name t) :: args)
+  | T o _ => node_sexp o args
   end.
 
 Definition binder (v : var) : sexp := SList [Atom (quote (fst v)); sort_sexp (snd v)].
@@ -215,7 +226,7 @@ Fixpoint print_tree (t : term) : sexp :=
               store_chain (const_array (array_value_type it d) pd) (map snd (sort_by_key keyed))
           | _, _ => Atom "?"
           end
-      | _ => node_sexp o ps
+      | _ => term_sexp t ps
       end
   end.
 
@@ -280,8 +291,8 @@ Definition dag_compute (names : list string) (st : dst) (t : term) : dst :=
           end
       | _ =>
           if dag_inline o then
-            {| d_memo := (t, node_sexp o rs) :: d_memo st; d_seed := d_seed st; d_lets := d_lets st |}
-          else add_let names st t (node_sexp o rs)
+            {| d_memo := (t, term_sexp t rs) :: d_memo st; d_seed := d_seed st; d_lets := d_lets st |}
+          else add_let names st t (term_sexp t rs)
       end
   end.
 
